@@ -395,14 +395,16 @@ class screen:
         screen.'''
 
         self.erase_end_of_line ()
-        self.fill_region (self.cur_r + 1, 1, self.rows, self.cols)
+        if self.cur_r < self.rows:
+            self.fill_region (self.cur_r + 1, 1, self.rows, self.cols)
 
     def erase_up (self): # <ESC>[1J
         '''Erases the screen from the current line up to the top of the
         screen.'''
 
         self.erase_start_of_line ()
-        self.fill_region (self.cur_r-1, 1, 1, self.cols)
+        if self.cur_r > 1:
+            self.fill_region (self.cur_r-1, 1, 1, self.cols)
 
     def erase_screen (self): # <ESC>[2J
         '''Erases the screen with the background color.'''
